@@ -113,7 +113,8 @@ class LSFScriptAdapter(SchedulerScriptAdapter):
                   the parameter step.
         """
         batch_header = dict(self._batch)
-        batch_header["nodes"] = step.run.get("nodes", self._batch["nodes"])
+        batch_header["nodes"] = \
+            step.run.get("nodes") or self._batch["nodes"]
         batch_header["job-name"] = step.name.replace(" ", "_")
         batch_header["output"] = "{}.%J.out".format(batch_header["job-name"])
         batch_header["error"] = "{}.%J.err".format(batch_header["job-name"])
